@@ -26,7 +26,8 @@ ROk(b) == [ok |-> TRUE, bytes |-> b]
 RErr == [ok |-> FALSE, bytes |-> <<>>]
 Types == {"CoseSign1", "CoseSign", "CoseMac", "CoseMac0", "CoseEncrypt", "CoseEncrypt0", "CoseRecipient"}
 
-Common == {[ev |-> "call", m |-> "protected", hdr |-> h] : h \in {H1, H2, EmptyHeader}} \cup {[ev |-> "call", m |-> "unprotected", hdr |-> U1]}
+HXr == [EmptyHeader EXCEPT !.rest = << <<Z2I(99), Nat2I(1)>> >>]          \* extras only: differs from the empty header only outside the typed fields
+Common == {[ev |-> "call", m |-> "protected", hdr |-> h] : h \in {H1, H2, EmptyHeader, HXr}} \cup {[ev |-> "call", m |-> "unprotected", hdr |-> U1]}
 Calls(ty) ==
   Common \cup
   CASE ty = "CoseSign1" ->
